@@ -152,7 +152,7 @@ class World:
                 seen.add(key)
                 self.fns.append(fn)
         self._fk = {}
-        self.norm = norm_c12.Normaliser(self.findex, keep=KEEP, else_of_return=(r"Adjacency::Permutation::apply$",))
+        self.norm = norm_c12.Normaliser(self.findex, keep=KEEP, else_of_return=(r"Adjacency::Permutation::apply\b",))
         for fn in self.fns:
             if re.search(SCOPE_RE, fn.file):
                 self.norm.apply(fn)
@@ -310,8 +310,8 @@ def rule_unsigned_pred(w):
         fk = w.fk(fn)
         par = _parents(fn.body)
         for n in walk(fn.body):
-            if n.get("k") != "Bin" or n.get("op") != "-":
-                continue
+            if n.get("k") != "Bin" or n.get("op") != "-" or n.get("synthetic"):
+                continue          # (synthetic: bounds of loops that stand for a std algorithm, e.g. the n-1 steps of an in-place partial_sum)
             rhs = fk.size(n["rhs"])
             if rhs is None or not rhs.is_const() or rhs.c < 1:
                 continue
@@ -805,10 +805,15 @@ def render_two_pass(w, r):
     count_pass = fill_pass = None
     prefix = None
     cursor_init = None
+    ambiguous = False
+
+    def is_counter(e):
+        v = fk.locals.get(e.var)
+        return v is not None and fk._is_integral(v)
     for lp, evs, endev in r.passes:
         kinds = set()
         for e in evs:
-            if e.kind == "scalar" and e.op == "++":
+            if e.kind == "scalar" and e.op == "++" and is_counter(e):
                 kinds.add("count")
             if e.kind == "sub" and e.arr.key == P and e.mode == "write":
                 if e.op == "++":
@@ -824,15 +829,19 @@ def render_two_pass(w, r):
         if "fill" in kinds:
             if fill_pass is not None:
                 ck.incomplete("E3.two-pass", "%s: more than one loop writes the image index array" % name)
+                ambiguous = True
             fill_pass = (lp, evs, endev)
         elif "count" in kinds:
             if count_pass is not None:
                 ck.incomplete("E3.two-pass", "%s: more than one counting loop" % name)
+                ambiguous = True
             count_pass = (lp, evs, endev)
         if "prefix" in kinds:
             prefix = (lp, evs, endev)
         if "cursor-array" in kinds:
             cursor_init = (lp, evs, endev)
+    if ambiguous:
+        return          # which loop is the counting / filling pass is not decided: nothing is judged
     if count_pass is None or fill_pass is None:
         ck.incomplete("E3.two-pass", "%s: counting pass / filling pass not recognised" % name)
         return
@@ -852,7 +861,7 @@ def render_two_pass(w, r):
             diff = (longer[min(len(pc), len(pf))], "nothing (only in the %s pass)" % which)
         problems.append("the two passes do not traverse/filter alike: counting pass has %s where the filling pass has %s" % (diff[0], diff[1]))
     # (2) unit actions in the same context
-    units_c = [e for e in count_pass[1] if (e.kind == "scalar" and e.op == "++") or (e.kind == "sub" and e.arr.key == P and e.op == "++")]
+    units_c = [e for e in count_pass[1] if (e.kind == "scalar" and e.op == "++" and is_counter(e)) or (e.kind == "sub" and e.arr.key == P and e.op == "++")]
     writes_f = [e for e in fill_pass[1] if e.kind == "cursor-write" or (e.kind == "sub" and e.arr.key == I and e.mode == "write")]
     advs_f = [e for e in fill_pass[1] if e.kind == "cursor-adv"]
     ctx_c = {frames_key(e.frames[1:]) for e in units_c}
@@ -889,13 +898,34 @@ def render_two_pass(w, r):
         # P[i] = counter before the adjacencies of i are counted; P[D] = counter afterwards
         stores = [e for e in count_pass[1] if e.kind == "sub" and e.arr.key == P and e.mode == "write" and e.op == "="]
         first_unit = min(e.seq for e in units_c) if units_c else 0
-        good = [e for e in stores if len(e.frames) == 1 and e.idx_canon == "$0" and strip(e.val).get("k") == "Ref" and strip(e.val).get("d") in counters and e.seq < first_unit]
-        if len(good) != 1 or len(stores) != 1:
-            problems.append("the counting pass does not store the running count into _domain_ptr[node] before counting the node's adjacencies")
+        last_unit = max(e.seq for e in units_c) if units_c else 0
+
+        def is_count(e):
+            return strip(e.val).get("k") == "Ref" and strip(e.val).get("d") in counters
+        good = [e for e in stores if len(e.frames) == 1 and e.idx_canon == "$0" and is_count(e) and e.seq < first_unit]
+        # the same offsets written as END offsets: _domain_ptr[0] = 0 before the loop, _domain_ptr[node+1] = running count AFTER the node was counted
+        good_end = [e for e in stores if len(e.frames) == 1 and e.idx_canon == "($0 + 1)" and is_count(e) and e.seq > last_unit]
         term = [e for e in fk.events if e.kind == "sub" and e.arr.key == P and e.mode == "write" and not e.frames and e.seq > count_pass[2].seq]
-        if not (len(term) == 1 and term[0].rng.exact is not None and pext is not None and fk.norm(term[0].rng.exact) + 1 == pext
-                and strip(term[0].val).get("k") == "Ref" and strip(term[0].val).get("d") in counters and term[0].seq < fill_pass[0].node.get("l", 0) * 0 + fill_pass[1][0].seq):
-            problems.append("the final offset _domain_ptr[#domain] is not set to the total count after the counting pass")
+        if len(stores) == 1 and len(good_end) == 1:
+            head = [e for e in fk.events if e.kind == "sub" and e.arr.key == P and e.mode == "write" and not e.frames and e.seq < count_pass[1][0].seq
+                    and e.rng.exact is not None and fk.norm(e.rng.exact) == Lin.const(0) and fk.size(e.val) == Lin.const(0)]
+            parr0 = fk.arrs.get(P)
+            if not head and not (parr0 is not None and parr0.zero):
+                problems.append("the offsets are stored as end offsets _domain_ptr[node+1] but _domain_ptr[0] is never set to 0")
+            if term:
+                problems.append("_domain_ptr is written again after the counting pass that already stored every end offset")
+        elif len(good) == 1 and len(stores) == 1:
+            if not (len(term) == 1 and term[0].rng.exact is not None and pext is not None and fk.norm(term[0].rng.exact) + 1 == pext
+                    and is_count(term[0]) and term[0].seq < fill_pass[1][0].seq):
+                problems.append("the final offset _domain_ptr[#domain] is not set to the total count after the counting pass")
+        elif len(stores) == 1 and len(stores[0].frames) == 1 and is_count(stores[0]) and stores[0].idx_canon in ("$0", "($0 + 1)"):
+            # recognised form, wrong place: the running count is stored on the wrong side of the node's adjacencies
+            problems.append("the counting pass stores the running count into _domain_ptr[%s] %s counting the node's adjacencies: every offset is shifted by one list" % (
+                stores[0].idx_canon.replace("$0", "node"), "after" if stores[0].idx_canon == "$0" else "before"))
+        elif not stores and not elsewhere(fk, (P,), names=NAMES):
+            problems.append("the counting pass does not store the running count into _domain_ptr[node] before counting the node's adjacencies")
+        else:
+            unclear.append("the offset stores of the counting pass (%s) are not of a modelled form" % ("; ".join("%s[%s] = %s" % (P, e.idx_canon, e.val_canon) for e in stores) or elsewhere(fk, (P,), names=NAMES)))
         if pcount:
             problems.append("plain render increments _domain_ptr entries while counting")
         # fill cursor of node i starts at P[i]
@@ -925,7 +955,14 @@ def render_two_pass(w, r):
             problems.append("transposed render does not accumulate per-node counts in _domain_ptr")
         cidx = {e.idx_canon for e in pcount}
         if prefix is None:
-            problems.append("no prefix-sum loop turns the per-node counts into offsets")
+            # a loop of a form the engine does not read (pointer cursor, data-dependent header) that writes through pointers / into the offsets
+            # may be the prefix sum in another spelling: then nothing is decided
+            odd = [lp for lp, evs, endev in r.passes if (lp.kind == "while" or getattr(lp, "hi", 0) is None or lp.kind not in ("range", "down", "adj", "seg", "foreach"))
+                   and any(e.kind in ("deref-write", "cursor-write", "sub-untracked", "opaque-write") or (e.kind == "sub" and e.mode == "write" and e.arr.key == P) for e in evs)]
+            if odd or elsewhere(fk, (P,), names=NAMES):
+                unclear.append("no prefix-sum loop recognised, but the loop %s writes through pointers / %s" % (odd[0].canon if odd else "-", elsewhere(fk, (P,), names=NAMES) or "into the offsets"))
+            else:
+                problems.append("no prefix-sum loop turns the per-node counts into offsets")
         else:
             pe = [e for e in prefix[1] if e.kind == "sub" and e.arr.key == P and e.mode == "write"]
             lp = prefix[0]
@@ -1283,8 +1320,13 @@ def rule_permutation(w):
             wr = [e for e in fk.events if e.kind == "sub" and e.mode == "write" and e.arr.key == "y"]
             fwd = inv = None
             unclear = []
+
+            def decisions(frames):
+                """if-frames that decide something: the else side of `if(c) return;` (a shortcut for a special case) is not a decision"""
+                return [f for f in frames if f.kind == "if" and not (f.branch == "else" and norm_c12._leaves_function(f.node.get("then"))
+                                                                     and norm_c12.bool_polarity(f.node.get("c"), name="invert") is None)]
             for e in wr:
-                ifs = [f for f in e.frames if f.kind == "if"]
+                ifs = decisions(e.frames)
                 pol = norm_c12.bool_polarity(ifs[0].node.get("c"), name="invert") if len(ifs) == 1 else None
                 if len(ifs) != 1 or pol is None:
                     # a decision in another spelling (ternary, several conditions, no branch at all): not read by this rule
@@ -2478,6 +2520,8 @@ def run(tier):
     rule_callee_precond(w)
     rule_dyn_compose(w)
     rule_perm_fill(w)
+    if w.norm.log:
+        ck.note("read through normalisation (lib/norm_c12.py): " + "; ".join("%s: %s" % (k.replace("FEAT::Adjacency::", "")[:70], ", ".join(sorted(set(v)))) for k, v in sorted(w.norm.log.items()))[:1500])
     ck.assume("adjactor interface contract (adjactor.hpp): image_begin/image_end(n) take n < get_num_nodes_domain(), iteration yields indices < get_num_nodes_image(); "
               "Graph: |_domain_ptr| = num_nodes_domain+1 (when not empty), offsets monotone with _domain_ptr[num_nodes_domain] = |_image_idx|, image indices < num_nodes_image")
     ck.assume("Permutation arrays hold values < size(); the input array v of Permutation(num_entries, type, v) and the `order` array of Coloring(graph, order) have one entry per "
